@@ -24,7 +24,7 @@ fixed("D36", "C16", "c23ba4a", "CREATE TABLE with PRIMARY KEY and UNIQUE aborted
 # ---- open findings: E1 (history simulator) ----
 for prop in ("C03", "C04"):
     open_("D5", prop, "UPDATE inside an open transaction is visible to other transactions at once (and survives ROLLBACK)", "O-res", "update_inside_session", "findings/D5-update-in-session-visible-to-others.json")
-    open_("D27", prop, "a DELETE is silently skipped (and reports the row as deleted) while another transaction's delete of the row is pending: no write-write conflict is raised; if the other transaction then rolls back the row survives both", "O-state", "concurrent_writers_same_row", "findings/D27-delete-skipped-when-another-delete-pending.json")
+    fixed("D27", prop, "7223bd5", "a DELETE was silently skipped (and reports the row as deleted) while another transaction's delete of the row is pending: no write-write conflict was raised; if the other transaction then rolls back the row survived both", "O-state", "findings/D27-delete-skipped-when-another-delete-pending.json")
     fixed("D27b", prop, "2194af4", "a DELETE was silently skipped when another transaction's delete of the row had been rolled back (the stale mark made Tuple::delete return early); index entries likewise, so a UNIQUE key stayed blocked", "O-res", "findings/D27b-delete-after-rolled-back-delete-is-skipped.json")
 fixed("D6", "C03", "0342cf8", "DROP TABLE inside a session destroyed the table before commit (tree deallocated at statement time)", "O-state", "findings/D6-drop-table-in-session-destroys-table.json")
 fixed("D23", "C03", "6c3bffc", "in a session a multi-row INSERT whose 2nd row violates a constraint left the 1st row; COMMIT published it", "O-state", "findings/D23-failed-multi-row-insert-leaves-rows.json")
@@ -40,7 +40,8 @@ open_("F3b", "C15", "a table with several indexes: the next CREATE UNIQUE INDEX 
 # ---- open findings: constraints (C07) ----
 fixed("U1", "C07", "120fb94", "after an INSERT of key K was rolled back, K could be inserted twice: the UNIQUE check finds the aborted index entry and misses the live one", "O-res", "findings/U1-key-freed-by-rollback-can-be-inserted-twice.json")
 fixed("U1b", "C07", "120fb94", "a key left behind by a failed multi-row INSERT and inserted again was missed by index lookups (k = K returns nothing)", "O-res", "findings/U1b-key-of-failed-insert-reinserted-is-missed-by-index-lookup.json")
-open_("D27c", "C15", "a DROP TABLE of a table on which another open transaction has a pending DROP is silently skipped and reported as done (the catalog row already carries a delete mark): no conflict is raised, and the second DROP of the same transaction succeeds again", "O-res", "drop_of_table_with_pending_drop", "findings/D27c-drop-of-a-table-with-a-pending-drop-is-silently-skipped.json")
+fixed("D27c", "C15", "066429a", "a DROP TABLE of a table on which another open transaction has a pending DROP was silently skipped and reported as done (the catalog row already carries a delete mark): no conflict was raised, and the second DROP of the same transaction succeeded again", "O-res", "findings/D27c-drop-of-a-table-with-a-pending-drop-is-silently-skipped.json")
+fixed("D27d", "C15", "066429a", "DROP TABLE after a rolled-back DROP of the same table (here: the session that had dropped it was lost in a reopen) reported success and did nothing; CREATE TABLE of the name then failed with 'already exists'", "O-res", "findings/D27d-drop-after-a-rolled-back-drop-is-skipped.json")
 open_("U2c", "C07", "the catalog's name index keeps one entry per name: after DROP TABLE t (committed) and CREATE TABLE t, a transaction whose snapshot still sees the old t gets 'table not found'", "O-res", "table_name_reuse_while_session_open", "findings/U2c-reusing-a-dropped-table-name-hides-the-old-table-from-older-snapshots.json")
 open_("U2", "C07", "deleting a row and re-inserting its UNIQUE key hides the old row from transactions whose snapshot predates the delete (index entry overwritten)", "O-res", "unique_key_reuse_while_session_open", "findings/U2-reinserted-unique-key-hides-old-row-from-older-snapshot.json")
 open_("U3", "C07", "a transaction that deletes a row and re-inserts its UNIQUE key and then fails leaves the index without the original row", "O-res", "unique_key_reuse_while_session_open", "findings/U3-delete-and-reinsert-of-key-in-rolled-back-txn-breaks-index.json")
